@@ -606,12 +606,24 @@ def s4b(ctx, rep):
     cand = [U(r.value) for r in returns_of(g) if isinstance(r.value, ast.Name)]
     if len(set(cand)) != 1:
         raise AnchorError("GridSearcher._next_candidate_on_grid does not return its candidate variable")
-    drop = [n.id for n in cg.nodes if n.kind == "stmt" and isinstance(n.ast, ast.Assign) and U(n.ast.targets[0]) == cand[0]
+    in_while = lambda n: any(p_.stmt is not None and isinstance(p_.stmt, ast.While) and n.stmt in list(stmts_in(p_.stmt.body)) for p_ in cg.nodes)
+    acc_ = [n for n in cg.nodes if n.kind == "stmt" and isinstance(n.ast, ast.Return) and isinstance(n.ast.value, ast.Name) and n.ast.value.id == cand[0] and in_while(n)]
+    drops_ = [n for n in cg.nodes if n.kind == "stmt" and isinstance(n.ast, ast.Assign) and U(n.ast.targets[0]) == cand[0]
+              and isinstance(n.ast.value, ast.Constant) and n.ast.value.value is None and in_while(n)]
+    if acc_ and not drops_:
+        # written with an early exit: a grid point is returned from inside the scan only if it was not an initial configuration
+        from .common import dom_guard
+        ok_ = all(any(a[0] == "truth" and a[1].startswith("self._all_initial_configs.contains(") and a[2] is False for a in dom_guard(ctx, g, n.id)) for n in acc_)
+        rep.put(ok_, "S6", "guarded_by", "GridSearcher._next_candidate_on_grid: a grid point is skipped | it was already suggested as an initial configuration", g,
+                acc_[0].ast, "returned from the scan only under `not self._all_initial_configs.contains(candidate)`",
+                "grid points that were suggested as initial configurations are suggested again (and all the others are skipped)")
+    drop = [] if (acc_ and not drops_) else [n.id for n in cg.nodes if n.kind == "stmt" and isinstance(n.ast, ast.Assign) and U(n.ast.targets[0]) == cand[0]
             and isinstance(n.ast.value, ast.Constant) and n.ast.value.value is None and any(l.kind in ("while", "test") for l in cg.nodes)
             and any(p_.stmt is not None and isinstance(p_.stmt, ast.While) and n.stmt in list(stmts_in(p_.stmt.body)) for p_ in cg.nodes)]
-    require_guard(ctx, rep, "S6", g, "GridSearcher._next_candidate_on_grid: a grid point is skipped | it was already suggested as an initial configuration", drop,
-                  [("self._all_initial_configs.contains(candidate)", lambda a: a[0] == "truth" and a[1].startswith("self._all_initial_configs.contains(") and a[2] is True)],
-                  "grid points that were suggested as initial configurations are suggested again (and all the others are skipped)")
+    if not (acc_ and not drops_):
+        require_guard(ctx, rep, "S6", g, "GridSearcher._next_candidate_on_grid: a grid point is skipped | it was already suggested as an initial configuration", drop,
+                      [("self._all_initial_configs.contains(candidate)", lambda a: a[0] == "truth" and a[1].startswith("self._all_initial_configs.contains(") and a[2] is True)],
+                      "grid points that were suggested as initial configurations are suggested again (and all the others are skipped)")
     h = P.method("BaseSearcher", "_next_initial_config")
     ch = cfg_of(h)
     pops = [n.id for n in ch.nodes for x in ch.node_walk(n.id) if isinstance(x, ast.Call) and fn_name(x) == "pop" and "_points_to_evaluate" in U(x.func.value)]
